@@ -154,6 +154,7 @@ func (propC06) Gen(r *Rng, tier string) *World {
 	w.Cfg = g.C
 	w.Cfg.ViaDirect = r.P(0.3)
 	w.Cfg.DirStyle = r.Intn(6)
+	w.Cfg.ViaAPI = r.P(0.4)
 	m := r.Intn(16)
 	w.Masks = []int{m, 15 - m, []int{0, 1, 15}[r.Intn(3)]}
 	nb := r.Range(2, 4)
